@@ -73,6 +73,7 @@ type Ctx struct {
 	model      *Model
 	start      time.Time
 	searchOnly bool
+	deadline   time.Time // search mode only: stop (by panicking with searchTimeout at the next check) after this
 
 	evals      int
 	distinct   map[string]struct{}
@@ -105,6 +106,14 @@ func verifDir() string {
 
 func (c *Ctx) thorough() bool { return c.tier == "thorough" || c.searchOnly }
 
+type searchTimeout struct{}
+
+func (c *Ctx) checkDeadline() {
+	if c.searchOnly && !c.deadline.IsZero() && time.Now().After(c.deadline) {
+		panic(searchTimeout{})
+	}
+}
+
 // vol picks the case volume for the tier.
 func (c *Ctx) vol(quick, thorough int) int {
 	if c.searchOnly {
@@ -135,6 +144,7 @@ func (c *Ctx) note(key string, nontrivial bool) {
 
 // Compare records one correspondence case: implementation vs model on the same input.
 func (c *Ctx) Compare(check string, input interface{}, impl, model string) bool {
+	c.checkDeadline()
 	st := c.corr[check]
 	if st == nil {
 		st = &corrStat{}
@@ -161,6 +171,7 @@ func (c *Ctx) Compare(check string, input interface{}, impl, model string) bool 
 // Oracle records the property itself evaluated on the implementation.
 // signature identifies the *kind* of failing case for known findings.
 func (c *Ctx) Oracle(check string, ok bool, signature string, input interface{}, detail string) {
+	c.checkDeadline()
 	if ok {
 		return
 	}
